@@ -564,19 +564,46 @@ func init() {
 			key = "(*Segment).visitDocument/reader-reset"
 			var resetCall ssa.Instruction
 			var reads []ssa.Instruction
-			for _, b := range fn.Blocks {
-				for _, ins := range b.Instrs {
-					ci, ok := ins.(ssa.CallInstruction)
-					if !ok {
-						continue
-					}
-					for _, a := range ci.Common().Args {
-						if strings.HasSuffix(accessPath(a), "vdc.reader") || strings.HasSuffix(accessPath(stripMakeIface(a)), "vdc.reader") {
-							if sc := ci.Common().StaticCallee(); sc != nil && sc.Name() == "Reset" {
-								resetCall = ins
-							} else {
-								reads = append(reads, ins)
+			scanReader := func(f *ssa.Function) (rst ssa.Instruction, rds []ssa.Instruction) {
+				for _, b := range f.Blocks {
+					for _, ins := range b.Instrs {
+						ci, ok := ins.(ssa.CallInstruction)
+						if !ok {
+							continue
+						}
+						for _, a := range ci.Common().Args {
+							if strings.HasSuffix(accessPath(a), ".reader") || strings.HasSuffix(accessPath(stripMakeIface(a)), ".reader") {
+								if sc := ci.Common().StaticCallee(); sc != nil && sc.Name() == "Reset" {
+									rst = ins
+								} else {
+									rds = append(rds, ins)
+								}
 							}
+						}
+					}
+				}
+				return
+			}
+			resetCall, reads = scanReader(fn)
+			if len(reads) == 0 {
+				// the record walk extracted into a helper that is handed the context: the Reset is
+				// there before the reads, or here before the call
+				for _, b := range fn.Blocks {
+					for _, ins := range b.Instrs {
+						call, ok := ins.(*ssa.Call)
+						if !ok || call.Call.StaticCallee() == nil || !c.inRoot(call.Call.StaticCallee()) || call.Call.StaticCallee().Blocks == nil {
+							continue
+						}
+						hr, hrd := scanReader(call.Call.StaticCallee())
+						if len(hrd) == 0 {
+							continue
+						}
+						if hr != nil {
+							resetCall, reads = hr, hrd
+						} else if resetCall != nil && before(resetCall, call) {
+							reads = []ssa.Instruction{call}
+						} else {
+							reads = hrd
 						}
 					}
 				}
@@ -909,6 +936,31 @@ func init() {
 							r.bad(key, fnName(fn), c.pos(ins.Pos()), "deferred Put returns the builder state to the pool on failing builds too (not reset)")
 							continue
 						}
+						// a thin helper that only hands its receiver/argument back (s.release()): what
+						// counts is where the helper is called
+						if len(fn.Blocks) == 1 && len(c.callsTo(fn)) > 0 {
+							if _, isParam := stripMakeIface(ci.Common().Args[1]).(*ssa.Parameter); isParam {
+								for _, hs := range c.callsTo(fn) {
+									hkey := fnName(hs.Parent()) + "/interimPool.Put"
+									if _, isDefer := hs.(*ssa.Defer); isDefer {
+										r.bad(hkey, fnName(hs.Parent()), c.pos(hs.Pos()), "deferred "+fnName(fn)+" returns the builder state to the pool on failing builds (and on a panic of the norm function) too: not reset")
+										continue
+									}
+									okR := false
+									for _, site := range c.callsTo(reset) {
+										if call, isCall := site.(*ssa.Call); isCall && call.Parent() == hs.Parent() && knownNilAt(call, hs.Block()) {
+											okR = true
+										}
+									}
+									if okR {
+										r.ok(hkey, fnName(hs.Parent()), c.pos(hs.Pos()), fnName(fn)+" (Put) is dominated by reset() == nil")
+									} else {
+										r.bad(hkey, fnName(hs.Parent()), c.pos(hs.Pos()), "the builder state is returned to the pool (through "+fnName(fn)+") without a dominating successful reset()")
+									}
+								}
+								continue
+							}
+						}
 						// dominated by nil edge of reset() result and nil edge of the build error
 						okReset := false
 						for _, site := range c.callsTo(reset) {
@@ -1188,6 +1240,15 @@ func assignedOnEntry(c *Ctx, fname, typ, f string) bool {
 	tn := c.NamedType(typ).Obj()
 	for _, st := range c.census().fieldStores[fieldKey{tn, f}] {
 		if st.fn != fn {
+			// in a single-block helper (acquireX(…) that binds the pooled object to this call)
+			// called from the entry block of fn
+			if len(st.fn.Blocks) == 1 {
+				for _, site := range c.callsTo(st.fn) {
+					if site.Parent() == fn && site.Block() == fn.Blocks[0] {
+						return true
+					}
+				}
+			}
 			continue
 		}
 		if st.ins.Block() == fn.Blocks[0] {
@@ -1492,6 +1553,85 @@ func lazySingletonStore(c *Ctx, fn *ssa.Function, ins ssa.Instruction, g *ssa.Gl
 		if len(nilEdge.Preds) == 1 && (nilEdge == ins.Block() || nilEdge.Dominates(ins.Block())) {
 			return true
 		}
+	}
+	return false
+}
+
+func init() {
+	register(&Rule{
+		Name:  "REUSE-THROUGH-INIT",
+		Floor: 1,
+		Doc:   "a caller-supplied object that is recycled (a preallocated PostingsList / PostingsIterator) is handed back only after it went through the type's re-initialiser (postingsListInit, PostingsList.iterator): no function other than the re-initialiser itself returns its own parameter of that type as it came in - what the previous lookup left in it (postings of another term, 1-hit state) would be taken for the result of this one",
+		Run: func(c *Ctx, scope string, r *Report) {
+			for _, sp := range resetSpecs {
+				if sp.mode != "clear-restore" {
+					continue
+				}
+				initFn := c.byName[sp.fn]
+				tn := c.NamedType(sp.typ)
+				for _, g := range c.srcFns {
+					if g == initFn || g.Parent() != nil {
+						continue
+					}
+					for _, p := range g.Params {
+						if pn := namedOf(p.Type()); pn == nil || pn.Obj() != tn.Obj() || p == g.Params[0] && g.Signature.Recv() != nil {
+							continue
+						}
+						if _, isPtr := p.Type().Underlying().(*types.Pointer); !isPtr {
+							continue
+						}
+						returnsT := false
+						res := g.Signature.Results()
+						for i := 0; i < res.Len(); i++ {
+							if rn := namedOf(res.At(i).Type()); rn != nil && rn.Obj() == tn.Obj() {
+								returnsT = true
+							}
+						}
+						if !returnsT {
+							continue
+						}
+						key := fnName(g) + "/returns-" + p.Name()
+						bad := ""
+						for _, b := range g.Blocks {
+							ret, ok := b.Instrs[len(b.Instrs)-1].(*ssa.Return)
+							if !ok {
+								continue
+							}
+							for _, rv := range ret.Results {
+								if rawParam(resolveLoad(rv), p, map[ssa.Value]bool{}) {
+									bad = c.pos(retPos(ret, b))
+								}
+							}
+						}
+						if bad != "" {
+							r.bad(key, fnName(g), c.pos(g.Pos()), "the caller's reusable "+sp.typ+" "+p.Name()+" is returned at "+bad+" as it came in, without going through "+sp.fn+": it still holds what the previous use left in it")
+						} else {
+							r.ok(key, fnName(g), c.pos(g.Pos()), "the reusable "+sp.typ+" is only handed back by way of "+sp.fn+" (or replaced)")
+						}
+					}
+				}
+			}
+		},
+	})
+}
+
+// rawParam: v is parameter p itself (possibly through phis), not the result of a call it was handed to.
+func rawParam(v ssa.Value, p *ssa.Parameter, seen map[ssa.Value]bool) bool {
+	if seen[v] {
+		return false
+	}
+	seen[v] = true
+	switch x := v.(type) {
+	case *ssa.Parameter:
+		return x == p
+	case *ssa.Phi:
+		for _, e := range x.Edges {
+			if rawParam(e, p, seen) {
+				return true
+			}
+		}
+	case *ssa.ChangeType:
+		return rawParam(x.X, p, seen)
 	}
 	return false
 }
